@@ -88,7 +88,9 @@ def probe_kernels(path):
             l, p, pr = np.empty(nh), np.empty(nh), np.empty(nh)
             fn = cmcmc.gibbs_options if kind == "call_gibbs" else cmcmc.mh_options
             fr = None if rec["frequencies"] is None else arr(rec["frequencies"], np.float64)
-            fn(arr(rec["genotype"], np.int64), int(rec["k"]), arr(rec["haplotypes"], np.int8), f(rec["reads"]).reshape(len(rec["reads"]), len(rec["haplotypes"][0]), -1),
+            n_pos = len(rec["haplotypes"][0])
+            reads = f(rec["reads"]).reshape(len(rec["reads"]), n_pos, -1) if len(rec["reads"]) else np.empty((0, n_pos, int(rec.get("max_allele", 2))))
+            fn(arr(rec["genotype"], np.int64), int(rec["k"]), arr(rec["haplotypes"], np.int8), reads,
                arr(rec["counts"], np.int64), float(rec["inbreeding"]), l, p, pr, fr, None)
             got = pr
         elif kind in ("ped_gibbs", "ped_mh"):
